@@ -130,6 +130,8 @@ def make_scenarios(rng, tier):
     #     unaltered by every format — relative spellings, where the name itself comes first (seeded changes C09-m11: the CSV writer prefixed such cells with an
     #     apostrophe; C09-m12: the SARIF uri left `%` unescaped, so `My%20Script.py` decoded to another name)
     special = ["@vendor.py", "-old.py", "=cmd.py", "+plus.py", "My%20Script.py", "caf%C3%A9.py", "100%.py", "%41.py"]
+    import diffhints
+    special += [n for n in diffhints.file_names(C.REPO) if n not in special][:12]      # names built from literals of changed lines (none on the recorded tree)
     for ci in range(2):
         out.append(dict(kind="alphabet", files=[(nm, (prog_b105("'pw%d'" % i) + prog_pickle()).encode()) for i, nm in enumerate(special[ci::2])] +
                         [("zz_bad%20name.py", prog_syntax_error().encode())], agg="vuln" if ci else "file", relative=True))
